@@ -2271,14 +2271,29 @@ impl PeerConnection {
             5000
         };
 
-        let sctp_needed = {
-            let remote = self.inner.remote_description.lock();
-            if let Some(desc) = &*remote {
+        // set_remote_description() starts ICE long before it stores the description (its
+        // last step). On a fast path ICE connects first and this function used to read
+        // "no remote description" as "no data channels": the connection then came up without
+        // an SCTP association for good. Wait for the description instead (bounded: the call
+        // may also fail after having started ICE).
+        let mut remote_wait = 0u32;
+        let sctp_needed = loop {
+            let has_app = self.inner.remote_description.lock().as_ref().map(|desc| {
                 desc.media_sections
                     .iter()
                     .any(|m| m.kind == MediaKind::Application)
-            } else {
-                false
+            });
+            match has_app {
+                Some(v) => break v,
+                None if remote_wait >= 400
+                    || *self.inner.peer_state.borrow() == PeerConnectionState::Closed =>
+                {
+                    break false;
+                }
+                None => {
+                    remote_wait += 1;
+                    tokio::time::sleep(std::time::Duration::from_millis(5)).await;
+                }
             }
         };
 
